@@ -35,21 +35,24 @@ def budget(tier):
 
 @st.composite
 def strategy_(draw, tier):
-    mol = draw(gens.mols(tier, families=("er", "skeleton", "wlhard", "chem", "deep", "deep")))
+    mol = draw(gens.mols(tier, families=("er", "skeleton", "wlhard", "chem", "deep", "deep", "multi")))
     n = len(mol["atoms"])
-    return {"mol": mol, "pi": draw(gens.perms(n)), "order": draw(gens.perms(n))}
+    return {"mol": mol, "pi": draw(gens.perms(n)), "order": draw(gens.perms(n)), "post": draw(st.sampled_from(["none", "none", "relabel", "recanon"]))}
 
 
 def strategy(tier):
     return strategy_(tier)
 
 
-def classes_by_tag(mol, order=None):
-    """Canonicalize and return class per abstract atom (tag = x coordinate = atom index)."""
+def classes_by_tag(mol, order=None, post="none", pi=None):
+    """Canonicalize and return class per abstract atom (tag = x coordinate = atom index).
+    `post`: hand the library a description whose labels differ from iteration positions."""
+    from .c01 import post_process
+
     m = mol.copy()
     for i, a in enumerate(m.atoms):
         a[4] = float(i)
-    g = mol_to_graph(m, order)
+    g = post_process(mol_to_graph(m, order), {"post": post, "pi": pi or []})
     c = call("canonicalize", canonicalize_molecule, g)
     cls = [None] * m.n
     for v, d in c.nodes(data=True):
@@ -84,7 +87,8 @@ def check(case, stats):
     check_equitable(mol, cls)
     pi = case["pi"]
     pm = mol.permute(pi)
-    cls2 = classes_by_tag(pm, case["order"])
+    cls2 = classes_by_tag(pm, case["order"], case.get("post", "none"), pi)
+    stats.label("post:" + case.get("post", "none"))
     stats.evaluated()
     for a in range(n):
         if cls2[pi[a]] != cls[a]:
@@ -112,6 +116,8 @@ def check(case, stats):
         stats.label("rounds>=13")
     if rounds >= 50:
         stats.label("rounds>=50")
+    if rounds > n // 2 + 1:
+        stats.label("rounds>n/2+1")
     if nontrivial_aut:
         stats.label("nontrivial_automorphism")
     if split or nontrivial_aut:
